@@ -153,6 +153,33 @@ fn context_of(job: &Job, len: u64) -> Result<(Context, Type)> {
     Ok((c, ot))
 }
 
+/// The slope and offset tables (alphas, betas: one entry per segment, 2^log_buckets + 2 of them) of a piecewise-linear
+/// operation, read from the Constant nodes of the instantiated graphs (they are created in this order).
+fn segment_tables(ctx: &Context, job: &Job) -> Result<Option<(Vec<i128>, Vec<i128>)>> {
+    let lb = match job.op.as_str() {
+        "exp" => 6,
+        "sigmoid" | "gelu" | "pwlsq" => job.lb,
+        _ => return Ok(None),
+    };
+    let want = array_type(vec![(1u64 << lb) + 2], job.st);
+    let mut found = vec![];
+    for g in ctx.get_graphs() {
+        for n in g.get_nodes() {
+            if let ciphercore_base::graphs::Operation::Constant(t, v) = n.get_operation() {
+                if t == want {
+                    found.push(from_value(&v, &t)?);
+                }
+            }
+        }
+    }
+    if found.len() != 2 {
+        return Err(ciphercore_base::runtime_error!("expected 2 segment tables, found {}", found.len()));
+    }
+    let be = found.pop().unwrap();
+    let al = found.pop().unwrap();
+    Ok(Some((al, be)))
+}
+
 fn guarded<T>(f: impl FnOnce() -> Result<T> + std::panic::UnwindSafe) -> std::result::Result<T, (String, String)> {
     match catch(f) {
         Ok(Ok(x)) => Ok(x),
@@ -212,14 +239,19 @@ fn run_job(j: &Json) -> Json {
     let res = guarded(std::panic::AssertUnwindSafe(move || {
         let (c, ot) = context_of(jb, len)?;
         let mc = run_instantiation_pass(c)?;
+        let tables = segment_tables(&mc.get_context(), jb)?;
         let vals = ar.iter().map(|a| to_value(a, jb.st)).collect::<Result<Vec<_>>>()?;
         let v = random_evaluate(mc.get_context().get_main_graph()?, vals)?;
-        from_value(&v, &ot)
+        Ok((from_value(&v, &ot)?, tables))
     }));
     match res {
-        Ok(ys) => {
+        Ok((ys, tables)) => {
             rec["out"] = json!("ok");
             rec["y"] = Json::Array(ys.iter().map(|v| enc(*v, &mode)).collect());
+            if let Some((al, be)) = tables {
+                rec["al"] = Json::Array(al.iter().map(|v| enc(*v, &mode)).collect());
+                rec["be"] = Json::Array(be.iter().map(|v| enc(*v, &mode)).collect());
+            }
         }
         Err((cls, msg)) => {
             rec["out"] = json!(cls);
@@ -254,15 +286,15 @@ fn run_job(j: &Json) -> Json {
             }
         }
     }
-    // explicit operand lists are re-encoded like the outputs (ranges stay ranges)
+    // operands stay JSON integers (every swept operand is below 2^31 in magnitude; ranges stay ranges)
     if j["x"].is_array() {
-        rec["x"] = Json::Array(xs0.iter().map(|v| enc(*v, &mode)).collect());
+        rec["x"] = Json::Array(xs0.iter().map(|v| json!(*v as i64)).collect());
     }
     if j["n"].is_array() {
-        rec["n"] = Json::Array(ns0.unwrap().iter().map(|v| enc(*v, &mode)).collect());
+        rec["n"] = Json::Array(ns0.unwrap().iter().map(|v| json!(*v as i64)).collect());
     }
     if let Some(ws) = &ws {
-        rec["w"] = Json::Array(ws.iter().map(|v| enc(*v, &mode)).collect());
+        rec["w"] = Json::Array(ws.iter().map(|v| json!(*v as i64)).collect());
     }
     rec
 }
